@@ -56,6 +56,9 @@ type Session struct {
 // become a hypothesis of the obligations that follow it in the same function.
 var neverAssume = map[string]bool{}
 
+// checkedProperty: the property id of the running `check` command ("" for `verify`).
+var checkedProperty string
+
 func loadNeverAssume() {
 	fs, err := loadFindings(verifDir() + "/known_findings.txt")
 	if err != nil {
@@ -268,6 +271,17 @@ func sortedKeys[V any](m map[string]V) []string {
 func usesGuarded(ob, g *Oblig) bool {
 	if !ob.Explicit {
 		return true
+	}
+	if checkedProperty != "" {
+		// inside `check <ID>`: only clauses that this very run discharges (tagged <ID>) may support the
+		// explicitly tagged clauses, so a hypothesis refuted by the change under test is reported by
+		// this run and cannot silently make a clause of <ID> vacuous
+		for _, b := range g.Tags {
+			if b == checkedProperty {
+				return true
+			}
+		}
+		return false
 	}
 	for _, a := range ob.Tags {
 		for _, b := range g.Tags {
